@@ -32,7 +32,7 @@ CLAIMS = {
             "kernels' partial operations (division by n.dv, normalised cross products) are guarded by the parallel tests; (4) a numeric "
             "ordering comparison that leads straight to `return None` leaves a tolerance margin (merely touching operands are not "
             "reported as disjoint because of float noise). "
-            "Also decided (round 9): no position / direction mismatch in the code the property reaches and in the constructors of its operands (affine weights: a Vector argument in a constructor slot or move() must have the weight the slot fixes); the handlers' internal sanity raises are unreachable (also through type switches whose rows test different variables); each handler is bound by the dispatcher in one orientation; the linear solver picks its pivot by the pivot column. NOT decided: that the kernels compute the right coordinates, that no point is missed in generic position, "
+            "Also decided (round 9): no position / direction mismatch in the code the property reaches and in the constructors of its operands (affine weights: a Vector argument in a constructor slot or move() must have the weight the slot fixes); the handlers' internal sanity raises are unreachable (also through type switches whose rows test different variables); each handler is bound by the dispatcher in one orientation; the linear solver picks its pivot by the pivot column. Round 10: no computed number is rounded on its way into the result (R1.9); the solver's pivot is chosen by magnitude (R1.5); a Segment built from an end point of each operand is guarded by a test that they differ (R1.10). NOT decided: that the kernels compute the right coordinates, that no point is missed in generic position, "
             "the tolerance band, None only when disjoint."
         ),
         note=NOTE_COMMON + "A4: the three numeric kernels and the membership predicates compute what their names say.",
@@ -50,7 +50,7 @@ CLAIMS = {
             "Point-in-polyhedron predicates that clip every hit reject only beyond a tolerance margin that depends on the live get_eps() "
             "(touching and boundary hits are not lost to float noise), and so do numeric comparisons that lead straight to `return None` in the handlers and helpers "
             "(whether such a numeric pre-filter is geometrically right is NOT decided); the hits are merged only through the tolerant Point equality / hash -- no dictionary, "
-            "duplicate filter or count keyed by raw coordinate tuples (R2.6). Also decided (round 9): no position / direction mismatch in the code the property reaches and in the constructors of its operands (affine weights: a Vector argument in a constructor slot or move() must have the weight the slot fixes); the handlers' internal sanity raises are unreachable (also through type switches whose rows test different variables); each handler is bound by the dispatcher in one orientation; the linear solver picks its pivot by the pivot column. NOT decided: coordinates, the "
+            "duplicate filter or count keyed by raw coordinate tuples (R2.6). Also decided (round 9): no position / direction mismatch in the code the property reaches and in the constructors of its operands (affine weights: a Vector argument in a constructor slot or move() must have the weight the slot fixes); the handlers' internal sanity raises are unreachable (also through type switches whose rows test different variables); each handler is bound by the dispatcher in one orientation; the linear solver picks its pivot by the pivot column. Round 10: no computed number is rounded on its way into the result (R2.11); pivot by magnitude (R2.7). NOT decided: coordinates, the "
             "longest-segment selection, hash-merging of coincident hits, tangency classification."
         ),
         note=NOTE_COMMON + "A4 as for C01.",
@@ -65,6 +65,7 @@ CLAIMS = {
             "every result return -- in particular `return None` -- lies behind all of these candidate families); result selection ordered by dimension and the cardinality ladders 0/1/2 points -> None/Point/Segment. NOT "
             "decided: that the collected vertex set is the true one, Euler reassembly, hash deduplication, measures."
             ' Also decided (round 9): no position / direction mismatch in the code the property reaches and in the constructors of its operands (affine weights: a Vector argument in a constructor slot or move() must have the weight the slot fixes); internal sanity raises unreachable; handler bindings in one orientation; pivot column; the collinearity helper that guards the coplanar polygon / polygon routine answers True only with at most two points or after testing every further index. '
+            ' Round 10: no rounding of computed numbers (R3.11); pivot by magnitude (R3.7); an early `return None` in front of every candidate family is guarded by type / None tests only -- no geometric quick rejection (R3.2). '
         ),
         note=NOTE_COMMON + "A4 as for C01.",
     ),
@@ -78,7 +79,7 @@ CLAIMS = {
             "loops cover all indices with a wrap-around successor; the polyhedron measures accumulate unconditionally over "
             "the whole edge set (a set: each edge once) / face list / pyramid set with exactly one pyramid per face in "
             "__init__ and move; the pyramid volume is 1/3 x height x base area in monomial normal form in both "
-            "Pyramid.volume and volume(), which sum the same pyramids. Also decided (round 9): a measure of a class with item assignment reads only the fields the assignment writes (R6.5). NOT decided: Heron / centroid-fan numerics to 1e-9, "
+            "Pyramid.volume and volume(), which sum the same pyramids. Also decided (round 9): a measure of a class with item assignment reads only the fields the assignment writes (R6.5). Round 10: no measure is rounded (R6.6). NOT decided: Heron / centroid-fan numerics to 1e-9, "
             "independence from vertex and face order (runtime sort, C09)."
         ),
         note=NOTE_COMMON,
@@ -91,7 +92,7 @@ CLAIMS = {
             "in both a and b -- the confinement theorem over every return site of the 28 handlers, the 3 hit-set helpers "
             "and the dispatcher, verified together (assume-guarantee over the mutual recursion); and None is absorbing "
             "(abstract evaluation of the dispatcher with None in either position; no direct handler call can receive a "
-            "possibly-None argument). Also decided (round 9): the collinearity helper answers True only with at most two points or after testing every further index (R12.4), so intersection(T, T) of a triangle cannot raise. NOT decided: idempotence, a in b => intersection(a, b) == a, associativity (they "
+            "possibly-None argument). Also decided (round 9): the collinearity helper answers True only with at most two points or after testing every further index (R12.4), so intersection(T, T) of a triangle cannot raise. Round 10: no computed number is rounded on its way into the result (R12.5). NOT decided: idempotence, a in b => intersection(a, b) == a, associativity (they "
             "relate the results of different runtime computations)."
         ),
         note=NOTE_COMMON + "A4 as for C01.",
@@ -108,7 +109,7 @@ CLAIMS = {
             "add-count, that no membership test used by the handlers can fall through to NotImplementedError, and -- for the same-type "
             "pairs, where both argument orders run one handler with exchanged operands -- that at every result return the set of "
             "consulted candidate families (candidate-origin analysis) is closed under exchanging the operands. "
-            "Also decided (round 9): type switches whose rows test different variables (R4.7); the collinearity helper answers True only with at most two points or after testing every further index (R4.10), so a triangular common part cannot raise 'Bug detected'. NOT decided (listed as `undecided` in evidence): raises guarded only by runtime cardinalities or "
+            "Also decided (round 9): type switches whose rows test different variables (R4.7); the collinearity helper answers True only with at most two points or after testing every further index (R4.10), so a triangular common part cannot raise 'Bug detected'. Round 10: the method form raises for no operand type the function form supports (R4.4); pivot by magnitude (R4.11). NOT decided (listed as `undecided` in evidence): raises guarded only by runtime cardinalities or "
             "numeric geometry, and numeric coincidence of handler(a,b) and handler(b,a) for same-type pairs."
         ),
         note=NOTE_COMMON + "Kernel type fact (A4): in inter_plane_plane the auxiliary line meets plane b in a Point.",
@@ -128,7 +129,7 @@ CLAIMS = {
             "with no accepting return before the loop has completed; "
             "(4) every membership predicate is effect-free, so one `in` test cannot change the answer of the next; (5) every ordering "
             "comparison that can reject a Point leaves a tolerance margin depending on the live get_eps() (boundary points count as contained; "
-            "an exact `< 0` threshold is reported). Also decided (round 9): no position / direction mismatch in the code the property reaches and in the constructors of its operands (affine weights: a Vector argument in a constructor slot or move() must have the weight the slot fixes) (R5.6). NOT decided: the numerical truth of the Point-in-S predicates and the width of the tolerance band."
+            "an exact `< 0` threshold is reported). Also decided (round 9): no position / direction mismatch in the code the property reaches and in the constructors of its operands (affine weights: a Vector argument in a constructor slot or move() must have the weight the slot fixes) (R5.6). Round 10: the point stored for Plane(a, b, c, d) does not depend on the scale of the equation (R5.7); threshold comparisons with operands of unknown type are examined too (R5.5). NOT decided: the numerical truth of the Point-in-S predicates and the width of the tolerance band."
         ),
         note=NOTE_COMMON + "Defining points are read from the inferred field table, not hard-coded.",
     ),
@@ -164,7 +165,7 @@ CLAIMS = {
             "order of polygons/polyhedra, and the choice of the stored support point of a Line / Plane -- decided in a "
             "degree/parity domain and by polynomial normal forms of the hashed value; __eq__/__hash__ store nothing on the "
             "(mutable) object, so a remembered hash cannot go stale after move / coordinate assignment / tolerance change; "
-            "Segment.__eq__ accepts both pairings; __eq__ uses direction fields only under parallel()/normalized() (also through helpers it delegates to). The parity domain joins over all definitions of a local; a conditional negation counts as a canonical orientation only if its guard orients all three components. Also decided (round 9): the coordinate hash of Point / Vector separates every coordinate (polygon / polyhedron equality is equality of accumulated vertex hashes; R8.9); no exact float decision is reached from __eq__ / __hash__ (R8.10). NOT decided: that different sets "
+            "Segment.__eq__ accepts both pairings; __eq__ uses direction fields only under parallel()/normalized() (also through helpers it delegates to). The parity domain joins over all definitions of a local; a conditional negation counts as a canonical orientation only if its guard orients all three components. Also decided (round 9): the coordinate hash of Point / Vector separates every coordinate (polygon / polyhedron equality is equality of accumulated vertex hashes; R8.9); no exact float decision is reached from __eq__ / __hash__ (R8.10). Round 10: == returns False for a Vector, a str, a list, a 3-tuple and None as well (R8.2). NOT decided: that different sets "
             "compare unequal, rounding-boundary effects, int/Fraction mixing."
         ),
         note=NOTE_COMMON + "hash(), round() and normalized() are modelled as functional opaque atoms of their canonical arguments.",
@@ -179,7 +180,7 @@ CLAIMS = {
             "its helpers decides on the exact value (truthiness, == c, != c) of a coordinate-derived float (R10.6); the method forms forward (self, other); and "
             "no normalised cross product of direction vectors is taken without a guard that excludes parallel AND "
             "anti-parallel operands on every path (R-CROSS), so that parallel lines cannot raise; every computed value is of degree 0 "
-            "and even in each Line's direction vector (two representations of one line give one distance). Also decided (round 9): no position / direction mismatch in the code the property reaches and in the constructors of its operands (affine weights: a Vector argument in a constructor slot or move() must have the weight the slot fixes) (R10.8); exact float decisions over everything distance() reaches on the documented pairs (R10.6), degree 1 and no mixed-degree sums (R10.7), never the distance between one stored representative of each of two infinite sets (R10.9), one sign convention for the general form a x + b y + c z = d in its writer, its reader and the solver (R10.10). NOT decided: that the "
+            "and even in each Line's direction vector (two representations of one line give one distance). Also decided (round 9): no position / direction mismatch in the code the property reaches and in the constructors of its operands (affine weights: a Vector argument in a constructor slot or move() must have the weight the slot fixes) (R10.8); exact float decisions over everything distance() reaches on the documented pairs (R10.6), degree 1 and no mixed-degree sums (R10.7), never the distance between one stored representative of each of two infinite sets (R10.9), one sign convention for the general form a x + b y + c z = d in its writer, its reader and the solver (R10.10). Round 10: the point stored for Plane(a, b, c, d) does not depend on the scale of the equation (R10.11). NOT decided: that the "
             "value is the Euclidean minimum and that it is zero exactly when the operands intersect."
         ),
         note=NOTE_COMMON,
@@ -212,7 +213,7 @@ CLAIMS = {
             "path with the right threshold; every ring/cap/side loop ranges over the full index range with a wrap-around "
             "successor (modulo, if-idiom, wrap helper or zip-with-rotation); in Cylinder and Cone every vertex ring used for the side faces is requested with the same "
             "centre, normal (up to a positive factor), radius and n as a cap, so caps and side faces share their vertices; the rejection guards of Parallelogram / Parallelepiped are even in every edge vector (parity domain: "
-            "a signed area / triple product compared one-sidedly refuses half of the valid argument orders). Also decided (round 9): no position / direction mismatch in the code the property reaches and in the constructors of its operands (affine weights: a Vector argument in a constructor slot or move() must have the weight the slot fixes) (R14.9); every builder input has a data or control dependence to the object returned (R14.8); Sphere's latitude rings are stacked in the order in which the faces connect them (R14.10). NOT decided: vertex/edge/face counts, vertices on the specified surface at equal steps, closed-form "
+            "a signed area / triple product compared one-sidedly refuses half of the valid argument orders). Also decided (round 9): no position / direction mismatch in the code the property reaches and in the constructors of its operands (affine weights: a Vector argument in a constructor slot or move() must have the weight the slot fixes) (R14.9); every builder input has a data or control dependence to the object returned (R14.8); Sphere's latitude rings are stacked in the order in which the faces connect them (R14.10). Round 10: no vertex coordinate is rounded (R14.11). NOT decided: vertex/edge/face counts, vertices on the specified surface at equal steps, closed-form "
             "area and volume (numeric)."
         ),
         note=NOTE_COMMON,
@@ -261,7 +262,7 @@ CLAIMS = {
             "with the stated relation at the defaults and at one further setting (constant folding of the setters' own "
             "expressions; whole package incl. visualization); no branch outside utils/solver.py decides on the exact value (truthiness, == c, != c) of a "
             "coordinate-derived float (R19.5; two tabled constructor validations) and no set / dictionary / membership test identifies points by raw coordinate "
-            "tuples instead of the tolerant __eq__ / __hash__ (R19.6). NOT decided: the numeric clauses (eps/1000 compares and "
+            "tuples instead of the tolerant __eq__ / __hash__ (R19.6). Round 10: no computed number is rounded outside the hash / eq / repr methods (R19.7); the thresholds of Point / Vector equality do not depend on the coordinates (R19.8). NOT decided: the numeric clauses (eps/1000 compares and "
             "hashes equal, 4*eps compares unequal)."
         ),
         note=NOTE_COMMON + "An imported name is bound to the value at import time (Python scoping), a call is a live read.",
@@ -284,6 +285,7 @@ CLAIMS = {
             "container of immutable elements), other copy hooks, __slots__ or identity-based eq/hash (beyond the reflexive fast path) are reported, so a deep copy is independent "
             "and equal. Outside: floating-point values of the snapshots."
             ' Also decided (round 9): a __deepcopy__ that rebuilds the object through a constructor which captures a mutable field shares it (R20.4); literal getattr / __dict__ membership are read as attribute accesses. '
+            ' Round 10: __copy__ hooks are verified as the default shallow copy written out, fields rebuilt from immutable parts count as deep-copied (R20.4). '
         ),
         note=NOTE_COMMON + "Alias abstraction (S = what the object is, E = what it reaches) is a may-analysis: sound for 'no effect'.",
     ),
